@@ -8,6 +8,7 @@ CONSTANTS
   MaxOps = 30
   MaxMut = 3
   MaxConds = 2
+  UseOpts = TRUE
   MaxObs = 2
   MaxRagged = 0
   MaxRaggedInt = 0
